@@ -1,4 +1,4 @@
-from hdrcommon import GEN_RULE, hdr_spec
+from hdrcommon import GEN_RULE, hdr_spec, spine_scripts
 from meta import COMMON_NOTE
 
 SPEC = hdr_spec(
@@ -6,7 +6,7 @@ SPEC = hdr_spec(
     prefixes={"C01"}, profiles=[("submit", 5), ("mixed", 3), ("clean", 1), ("saveload", 1)],
     rule=GEN_RULE + "interleaved with Clean (small and real prune depth), Save and Load; every script ends with a full dump (tip, Hash/Header at every height, "
          "every lookup on every header); non-trivial = at least 8 submissions",
-    props_file="C01",
+    props_file="C01", extra=spine_scripts(['autoclean']),
     partial_note="for histories of submissions from genesis (automatic clean not due; NO assumption on verdicts, since no submission can end in an internal error there: "
                  "C01_tip_maximal_wf) all three sentences are theorems: the tip has maximal accumulated work among all branch tips and the held best-chain headers are linked, Header(k).prev = Hash(k-1), across branch boundaries "
                  "(C01_chain_linked_submissions); the recorded work is the cumulative block work from genesis, strictly increasing (C01_work_is_cumulative), and no "
